@@ -135,6 +135,8 @@ type interpreter struct {
 	depth    int
 	nondets  []NondetRec
 	mapIDs   int
+	memo    map[string]memoEntry // verifMemo results, per worker, across paths
+	randCtr int32 // deterministic stand-in for math/rand (unique tokens)
 	orderFree bool
 	capNondet bool
 	inPlaceAppends int
@@ -171,6 +173,7 @@ type exploration struct {
 	mu     sync.Mutex
 	cond   *sync.Cond
 	queue  []workItem
+	local  [][]workItem // per-worker LIFO queues; idle workers steal the oldest item of the longest one
 	active int
 	res    *Result
 	stop   bool
@@ -370,6 +373,7 @@ func (sh *Shared) Explore(fn *ssa.Function) *Result {
 	if nw < 1 {
 		nw = 1
 	}
+	ex.local = make([][]workItem, nw)
 	for w := 0; w < nw; w++ {
 		wg.Add(1)
 		go func(w int) {
@@ -386,16 +390,37 @@ func (sh *Shared) Explore(fn *ssa.Function) *Result {
 	return res
 }
 
-func (ex *exploration) take() (workItem, bool) {
+func (ex *exploration) take(w int) (workItem, bool) {
 	ex.mu.Lock()
 	defer ex.mu.Unlock()
 	for {
 		if ex.stop {
 			return workItem{}, false
 		}
+		if n := len(ex.local[w]); n > 0 {
+			it := ex.local[w][n-1]
+			ex.local[w] = ex.local[w][:n-1]
+			ex.active++
+			return it, true
+		}
 		if n := len(ex.queue); n > 0 {
 			it := ex.queue[n-1]
 			ex.queue = ex.queue[:n-1]
+			ex.active++
+			return it, true
+		}
+		// steal: the oldest item (shallowest prefix, largest subtree) of the longest queue, so
+		// that the paths sharing a prefix - and the memoised computations they share - stay
+		// with one worker
+		victim, best := -1, 0
+		for v, q := range ex.local {
+			if len(q) > best {
+				victim, best = v, len(q)
+			}
+		}
+		if victim >= 0 {
+			it := ex.local[victim][0]
+			ex.local[victim] = ex.local[victim][1:]
 			ex.active++
 			return it, true
 		}
@@ -407,9 +432,9 @@ func (ex *exploration) take() (workItem, bool) {
 	}
 }
 
-func (ex *exploration) done(newItems []workItem) {
+func (ex *exploration) done(w int, newItems []workItem) {
 	ex.mu.Lock()
-	ex.queue = append(ex.queue, newItems...)
+	ex.local[w] = append(ex.local[w], newItems...)
 	ex.active--
 	ex.cond.Broadcast()
 	ex.mu.Unlock()
@@ -437,7 +462,7 @@ func (ex *exploration) worker(w int) {
 	defer i.solver.Close()
 	inited := false
 	for {
-		it, ok := ex.take()
+		it, ok := ex.take(w)
 		if !ok {
 			break
 		}
@@ -452,7 +477,7 @@ func (ex *exploration) worker(w int) {
 			ex.mu.Unlock()
 		}
 		newItems := i.runPath(it)
-		ex.done(newItems)
+		ex.done(w, newItems)
 	}
 	ex.mu.Lock()
 	ex.res.SolverTime += i.solver.Time
@@ -563,6 +588,7 @@ func (i *interpreter) runPath(it workItem) (newItems []workItem) {
 	i.depth = 0
 	i.nondets = i.nondets[:0]
 	i.orderFree = false
+	i.randCtr = 1 << 20
 	i.capNondet = false
 	i.inPlaceAppends = 0
 	i.pathCovers = i.pathCovers[:0]
